@@ -2,6 +2,7 @@
   C06 — peer stream decoding is total, segmentation-independent and bounded.
 -/
 import RdestModel.Wire.Conn
+import RdestModel.Swarm.Preds
 set_option linter.unusedSimpArgs false
 namespace Rdest.Props.C06
 open Rdest Rdest.Gen Rdest.Wire
@@ -292,5 +293,18 @@ example : parseImpl [0, 0, 0, 9, 20, 1, 2] = .incomplete := by decide
 example : parseImpl [0, 0, 0, 2, 20, 1] = .skip 6 := by decide
 example : parseImpl [0, 0, 0, 2, 0] = .fatal := by decide
 example : parseImpl [0, 1, 0, 1, 5] = .fatal := by decide
+
+end Rdest.Props.C06
+
+/-! ### T5, level 3: the connection task ends on a receive error (model of the `select!` arm in `event_loop`) -/
+
+namespace Rdest.Props.C06
+open Rdest Rdest.Swarm
+
+/-- For every state of a live task, a receive error or the end of the stream ends the task with that input. -/
+theorem T5_receive_error_ends_task (sha1 : Bytes → Bytes) (d : Bytes → Option Bytes) (s : HState) (h : s.alive = true) :
+    (∃ s', hstep sha1 d s .recvErr = some (s', [], some false) ∧ s'.alive = false) ∧
+    (∃ s', hstep sha1 d s .eof = some (s', [], some false) ∧ s'.alive = false) := by
+  constructor <;> exact ⟨{ s with alive := false }, by simp [hstep, h, terminate], rfl⟩
 
 end Rdest.Props.C06
